@@ -3,7 +3,7 @@ import InfluxQL.Model.Print
 import InfluxQL.Model.Scanner
 /-
 Parser plumbing and the expression parser (parser.go): `bufScanner`, `Parser.scan`
-with bound-parameter substitution, `ScanIgnoreWhitespace`, `peekRune`,
+with bound-parameter substitution, `ScanIgnoreWhitespace`, `peekRune`, `peekComment`,
 `parseSegmentedIdents`, `ParseVarRef`, `ParseExpr`, `parseUnaryExpr`,
 `parseRegex`, `parseCall`.
 
